@@ -168,8 +168,16 @@ func (e *env) close() {
 	os.RemoveAll(e.dir)
 }
 
+type seedT struct {
+	ID   string `json:"id"`
+	A    string `json:"a"`
+	B    string `json:"b"`
+	BNil bool   `json:"bnil"`
+}
+
 type mut struct {
-	Op   string `json:"op"` // c u d
+	Seeds []seedT `json:"seeds,omitempty"` // op "i": Store.Init adding these seeds (ID is then "\x00init")
+	Op   string `json:"op"` // c u d i
 	ID   string `json:"id"`
 	A    string `json:"a"` // hex
 	B    string `json:"b"` // hex
@@ -195,17 +203,49 @@ func ovalCoq(v interface{}) string {
 	}
 	return "(Some " + valCoq(v.(val)) + ")"
 }
-func (m mut) coq() string {
+func (m mut) coq() string { return m.coqOrdered(nil) }
+
+// coqOrdered: for an Init step the seeds are listed in the order the store notified them (first), then the rest
+func (m mut) coqOrdered(notified []string) string {
 	switch m.Op {
 	case "c":
-		return "MCreate " + B(m.ID) + " " + valCoq(m.val())
+		return "SMut (MCreate " + B(m.ID) + " " + valCoq(m.val()) + ")"
 	case "u":
-		return "MUpdate " + B(m.ID) + " " + valCoq(m.val())
+		return "SMut (MUpdate " + B(m.ID) + " " + valCoq(m.val()) + ")"
+	case "i":
+		var parts []string
+		used := map[int]bool{}
+		emit := func(i int) {
+			sd := m.Seeds[i]
+			used[i] = true
+			parts = append(parts, "("+B(sd.ID)+","+valCoq(mut{A: sd.A, B: sd.B, BNil: sd.BNil}.val())+")")
+		}
+		for _, id := range notified {
+			for i, sd := range m.Seeds {
+				if sd.ID == id && !used[i] {
+					emit(i)
+				}
+			}
+		}
+		for i := range m.Seeds {
+			if !used[i] {
+				emit(i)
+			}
+		}
+		return "SInit " + List(parts)
 	}
-	return "MDelete " + B(m.ID)
+	return "SMut (MDelete " + B(m.ID) + ")"
 }
 
 func (e *env) apply(m mut) error {
+	if m.Op == "i" {
+		return e.st.Init(func(add func(id string, v interface{})) error {
+			for _, sd := range m.Seeds {
+				add(sd.ID, mut{A: sd.A, B: sd.B, BNil: sd.BNil}.val())
+			}
+			return nil
+		})
+	}
 	w := e.st.Write(m.ID)
 	defer w.Close()
 	return applyIn(w, m)
@@ -226,6 +266,11 @@ func applyIn(w store.WriteTxn, m mut) error {
 // several things to a resource looks like, and what a per-transaction cache must survive.
 func (e *env) applyAll(ms []mut) {
 	for i := 0; i < len(ms); {
+		if ms[i].Op == "i" {
+			e.apply(ms[i])
+			i++
+			continue
+		}
 		j := i + 1
 		for j < len(ms) && ms[j].ID == ms[i].ID {
 			j++
@@ -388,7 +433,58 @@ func genHistoryIDs(r *Rng, n int, nul bool, allIDs []string) []mut {
 	exists := map[string]bool{}
 	cur := map[string]mut{}
 	var ms []mut
+	// Store.Init steps: the first one after 0-5 ordinary mutations (creates BEFORE the first Init), its seeds all
+	// new / naming existing ids with other keys / mixed; a later one on the initialised store
+	initAt, init2At, inited := -1, -1, false
+	if n >= 3 && r.Chance(45) {
+		initAt = r.Intn(6)
+		if initAt >= n {
+			initAt = n - 1
+		}
+		if r.Chance(50) {
+			init2At = initAt + 1 + r.Intn(n)
+		}
+	}
 	for len(ms) < n {
+		if len(ms) == initAt || len(ms) == init2At {
+			mode := r.Intn(3) // 0 new ids only, 1 existing ids only, 2 any
+			var pool []string
+			for _, id := range allIDs {
+				if mode == 2 || (mode == 0) == !exists[id] {
+					pool = append(pool, id)
+				}
+			}
+			if len(pool) == 0 {
+				pool = allIDs
+			}
+			im := mut{Op: "i", ID: "\x00init"}
+			picked := map[string]bool{}
+			for k := 1 + r.Intn(3); k > 0; k-- {
+				id := r.Pick(pool)
+				if picked[id] {
+					continue
+				}
+				picked[id] = true
+				sd := seedT{ID: id, A: hex.EncodeToString([]byte(genKey(r, nul)))}
+				if r.Chance(35) {
+					sd.BNil = true
+				} else {
+					sd.B = hex.EncodeToString([]byte(genKey(r, nul)))
+				}
+				im.Seeds = append(im.Seeds, sd)
+			}
+			ms = append(ms, im)
+			if !inited {
+				inited = true
+				for _, sd := range im.Seeds {
+					if !exists[sd.ID] {
+						exists[sd.ID] = true
+						cur[sd.ID] = mut{Op: "c", ID: sd.ID, A: sd.A, B: sd.B, BNil: sd.BNil}
+					}
+				}
+			}
+			continue
+		}
 		id := r.Pick(allIDs)
 		m := mut{ID: id}
 		k := r.Intn(100)
@@ -447,7 +543,11 @@ func genHistoryIDs(r *Rng, n int, nul bool, allIDs []string) []mut {
 func prefixVariants(r *Rng, ms []mut) []string {
 	var keys []string
 	for _, m := range ms {
-		if m.Op != "d" {
+		for _, sd := range m.Seeds {
+			a, _ := hex.DecodeString(sd.A)
+			keys = append(keys, string(a))
+		}
+		if m.Op != "d" && m.Op != "i" {
 			a, _ := hex.DecodeString(m.A)
 			keys = append(keys, string(a))
 			if !m.BNil {
@@ -1334,6 +1434,7 @@ type respRec struct {
 
 type segRec struct {
 	changes []string
+	chIDs   []string
 	cbs     []cbRec
 	pubs    []pubRec
 	ar2     []string
@@ -1566,6 +1667,7 @@ func runC14(d c14desc, dist map[string]int, impl *[]ImplViolation) Case {
 	e.st.OnChange(func(id string, before, after interface{}) {
 		mu.Lock()
 		seg.changes = append(seg.changes, "("+B(id)+","+ovalCoq(before)+","+ovalCoq(after)+")")
+		seg.chIDs = append(seg.chIDs, id)
 		mu.Unlock()
 	})
 	// two recording callbacks
@@ -1819,10 +1921,11 @@ func runC14(d c14desc, dist map[string]int, impl *[]ImplViolation) Case {
 		if d.Handlers {
 			fr = fresh()
 		}
+		storedNow := e.stored()
 		mu.Lock()
 		var mts, cbs, pubs, resps []string
 		for _, m := range ms {
-			mts = append(mts, m.coq())
+			mts = append(mts, m.coqOrdered(cur.chIDs))
 		}
 		for _, c := range cur.cbs {
 			var affs []string
@@ -1869,8 +1972,8 @@ func runC14(d c14desc, dist map[string]int, impl *[]ImplViolation) Case {
 				nRespNo++
 			}
 		}
-		segTerms = append(segTerms, fmt.Sprintf("SG %s %s %s %s %s %s %s %s %s %s", List(mts), List(cur.changes), List(cbs), List(results),
-			List(pubs), List(cur.ar2), natList(cur.ar2pos), List(cur.ar4), List(resps), List(fr)))
+		segTerms = append(segTerms, fmt.Sprintf("SG %s %s %s %s %s %s %s %s %s %s %s", List(mts), List(cur.changes), List(cbs), List(results),
+			List(pubs), List(cur.ar2), natList(cur.ar2pos), List(cur.ar4), List(resps), List(fr), storedNow))
 		// for the replay: announced-before-failing resources that got no reset
 		for _, a := range cur.ar2log {
 			if a.fail <= 0 {
@@ -2477,6 +2580,16 @@ func genC14(r *Rng, i int, thorough bool) c14desc {
 		}
 		if n > len(ms) {
 			n = len(ms)
+		}
+		if ms[0].Op == "i" {
+			n = 1 // a Store.Init call is a segment of its own
+		} else {
+			for k := 1; k < n; k++ {
+				if ms[k].Op == "i" {
+					n = k
+					break
+				}
+			}
 		}
 		segs = append(segs, ms[:n])
 		ms = ms[n:]
